@@ -1,5 +1,6 @@
 """C17 - mesh files follow the formats Neuroglancer reads and survive a round
 trip."""
+import collections
 import csv
 import gzip
 import io
@@ -29,7 +30,8 @@ META = {
              '; reader_big: more than a million triangles with one out-of-'
              'range index at the head / middle / tail / end.'
              " Round 12: GIfTI point sets stored as INT32 / UINT8 (coordinates of several metres)."
-             " Round 18: link-mesh-fragments run again with a corrected table."),
+             " Round 18: link-mesh-fragments run again with a corrected table."
+             " Round 19: vertex attributes as list / tuple / generator / iterator."),
     "trusted_base": ["vlib/refs/mesh_spec.py (struct-based, from the format "
                      "text)", "vlib/refs/vtk_grammar.py (from memory of "
                      "neuroglancer's vtk/parse.ts)", "nibabel GIFTI writer"],
@@ -631,7 +633,12 @@ def check_vtk(ctx, case):
         attrs.append({"name": a["name"], "values": vals})
     sio = io.StringIO()
     try:
-        M.save_mesh_as_neuroglancer_vtk(sio, v, t, vertex_attributes=attrs,
+        # "an iterable": a list, a tuple, a generator, an iterator over
+        # dict sub-class items
+        how = (len(attrs) + len(case["title"]) + len(v)) % 4
+        given = {0: attrs, 1: tuple(attrs), 2: (a_ for a_ in attrs),
+                 3: iter([collections.OrderedDict(a_) for a_ in attrs])}[how]
+        M.save_mesh_as_neuroglancer_vtk(sio, v, t, vertex_attributes=given,
                                         title=case["title"])
     except Exception as exc:
         ctx.fail("save_mesh_as_neuroglancer_vtk raised %s: %s" % (
